@@ -29,6 +29,9 @@ CHECKS["C09"] = dict(engine="govm", level="fault_enumeration", technique="fault 
 CHECKS["C11"] = dict(engine="govm", technique="stateless model checking: close point x delay menu x deviation-bounded exhaustive schedules (3 default policies) of the real client transport against a scripted closing server, virtual time",
              text="Scripted server answers everything and closes (FIN / reconnect notice + FIN / RST) after response 1 or 2; the next call(s) are issued 1/999/1000/1001/1500 ms after the close, sequentially or from two callers; all schedules within 1 deviation (2 with pruning in thorough) from three default policies. Post-close calls must succeed, nothing may be written to a connection whose receiver saw EOF, the newest healthy connection must not be flagged closed, nothing may be stranded in the send queues.",
              note="Calls at the very instant of the close are out of the property's scope and not judged; vnet log supplies 'who wrote what when'.", ref="§5 C11")
+CHECKS["C10"] = dict(engine="govm", technique="explicit matrix enumeration through the real Protocol.Invoke + stateless model checking of the real TarsServer (TCP and UDP) under deviation-bounded schedules, virtual time",
+             text="(a) every cell of version{TARS,TUP,JSON} x packet type x function{ok,error,*tars.Error,ping,unknown,void} x own-timeout{none,ample,elapsed in queue} x ids through the real Protocol.Invoke with the real generated AdminF dispatcher; (b) the real TarsServer over in-memory TCP and UDP, pool 0/1/2, handle timeout 0/T, handler durations 0/T-e/T/T+e, 2-4 pipelined requests on 1-2 connections, all schedules within 2 (3) deviations from three default policies. Responses decoded by an independent codec: exactly one per two-way request, none per one-way, id/version/packet type echoed, error code and message, queue-timeout code, timeout error for over-long handlers.",
+             note="TUP responses have no iRet member: the result code is looked for in the status map (STATUS_RESULT_CODE/STATUS_RESULT_DESC).", ref="§5 C10")
 NOT_YET = {}
 ALL = ["C%02d" % i for i in range(1, 21)]
 
